@@ -104,9 +104,27 @@ def state_equal(a, b):
     return True
 
 
+class InplaceScale(torch.nn.Module):
+    """user code between two layers that rescales its input IN PLACE (h /= sqrt(d)): whatever that does to a quantized
+    activation, it must not reach into the module that produced it (its output_scale buffer)"""
+
+    def __init__(self, how):
+        super().__init__()
+        self.how = how
+
+    def forward(self, x):
+        if self.how == 0:
+            x /= 2.0
+        elif self.how == 1:
+            x *= 0.5
+        else:
+            x = x.mul_(0.5)
+        return x
+
+
 def _mk(kind, seed, aq="qint8", wq="qint8"):
     g = torch.Generator().manual_seed(seed)
-    m = torch.nn.Sequential(torch.nn.Linear(6, 5), torch.nn.ReLU(), torch.nn.Linear(5, 3))
+    m = torch.nn.Sequential(torch.nn.Linear(6, 5), InplaceScale(seed % 3), torch.nn.ReLU(), torch.nn.Linear(5, 3))
     with torch.no_grad():
         for p in m.parameters():
             p.copy_(torch.randn(p.shape, generator=g) * 0.4)
